@@ -31,6 +31,13 @@ Fixpoint src_remove1 (x : nat) (l : list nat) : list nat :=      (* list.remove:
   | y :: r => if Nat.eqb x y then r else y :: src_remove1 x r
   end.
 
+(* lst[i] with Python's index rule (negative from the end, IndexError outside) *)
+Definition src_list_get {A : Type} (l : list A) (i : Z) : res A :=
+  let n := Z.of_nat (length l) in
+  let j := if i <? 0 then n + i else i in
+  if (0 <=? j) && (j <? n) then match nth_error l (Z.to_nat j) with Some x => Ok x | None => Crash IndexError end
+  else Crash IndexError.
+
 Definition dupd (ds : list dyn) (t : nat) (f : dyn -> dyn) : list dyn := set_nth ds t (f (getdl ds t)).
 Definition with_start (v : option Z) (d : dyn) : dyn := {| d_start := v; d_end := d_end d; d_est := d_est d; d_spent := d_spent d |}.
 Definition with_end (v : option Z) (d : dyn) : dyn := {| d_start := d_start d; d_end := v; d_est := d_est d; d_spent := d_spent d |}.
@@ -126,6 +133,44 @@ SPECS += [
          obj_writes={'start': 'with_start', 'end': 'with_end', 'estimate': 'with_est', 'spent': 'with_spent'},
          expr_rewrites={'project.tasks': ('(members w)', NATS)}),
 ]
+
+
+# calc itself: the pre-checks, the reset of the summaries, one call of the pass per root (forward: in order; backward: by
+# descending index), the result.  `wbs.clone()` is the scheduler's own view of the WBS (`w` with the values `ds` - C10 is the
+# property about clone), `_check_loops` is not translated (it raises on dependency cycles only, which no WBS built through
+# the public API has - C01), the `Schedule(...)` that is returned is the triple (dates and amounts, usage rows, calculated ids).
+CALCRES = '((list dyn) * ledger * (list nat))'
+
+
+def calc_spec(cls, coq, fwd):
+    wname = 'wbs' if fwd else 'project'
+    cname = 'forward' if fwd else 'backward'
+    ru = cname + '_resource_usage'
+    passfn = 'self.__forward_pass' if fwd else 'self.__backward_pass'
+    coqpass = 'src_fwd_pass' if fwd else 'src_bwd_pass'
+    calls = {'_validate_graph_isolation': ('apply', 'src_validate_graph_isolation w', ('fun', [], 'unit', True), [])}
+    if fwd:
+        calls['self.__check_no_end_dates_in_future'] = ('apply', 'src_check_no_end_dates_in_future cfg w', ('fun', [], 'unit', True), [])
+    ret_text = 'Schedule(%s, list(self.__resources.values()), ResourceUsageReport(%s.rows))' % (cname, ru)
+    return dict(
+        file='schedule.py', cls=cls, func='calc', coq_name=coq, obj_type='nat', loops='fold',
+        params={'ds': ('ds', '(list dyn)')}, ignored_params=(wname,),
+        signature=[('cfg', 'config'), ('w', '(list itask)'), ('ds', '(list dyn)')], ret=CALCRES,
+        locals={'ds': '(list dyn)', ru: 'ledger', 'calculated': NATS, cname: 'unit', 'backward_roots': NATS},
+        calls=calls, ignored_calls=('_check_loops',),
+        expr_rewrites={wname + '.clone()': ('tt', 'unit'), '_ResourceUsage()': ('[]', 'ledger'),
+                       cname + '.roots': ('(roots w)', NATS),
+                       ret_text: ('(${ds}, ${%s}, ${calculated})' % ru, CALCRES)},
+        rebind_calls={
+            'self.__prepare_tasks': ('%s w ${ds}' % ('src_prepare_tasks' if fwd else 'src_prepare_tasks_bwd'), '(%ds, _)', ['ds'], [], [], {0: cname}),
+            passfn: ('%s (S (S (length w))) cfg w ${ds} ${%s} ${calculated} [] $0' % (coqpass, ru),
+                     '((%%ds, %%%s, %%calculated, _), _)' % ru, ['ds', ru, 'calculated'], [0], ['nat'],
+                     {1: cname, 2: ru, 3: 'calculated', 4: '[]'}),
+        })
+
+
+OPS['list_get'] = 'src_list_get'
+SPECS += [calc_spec('ForwardScheduler', 'src_forward_calc', True), calc_spec('BackwardScheduler', 'src_backward_calc', False)]
 
 
 def emit(repo):
